@@ -54,6 +54,32 @@ pub fn case_pair(api: &dyn GlobalApi, va: &dyn VariantApi, l: &str, r: &str, st:
             return Err(format!("tlsh::compare({:?}, {:?}) = {:?} but parse-then-compare gives {:?}", l, r, got, want));
         }
     }
+    // aliasing: both operands are slices of ONE buffer that start at the same address (a line and
+    // its trimmed form, a string and a prefix of it).  What the operands denote is decided by
+    // their contents, not by where they live.
+    for s in [l, r] {
+        let buf = format!("{}0F", s);
+        let n = s.len();
+        for k in [n, n.saturating_sub(1), n.saturating_sub(2), 2usize.min(n), 0, n + 1, n + 2] {
+            if !buf.is_char_boundary(k) {
+                continue;
+            }
+            for (a, b) in [(&buf[..n], &buf[..k]), (&buf[..k], &buf[..n])] {
+                let want = expect(&a.to_string(), &b.to_string());
+                let got = va.compare_with(a, b).unwrap();
+                st.eval();
+                if got != want {
+                    return Err(format!("{}: compare_with({:?}, {:?}) with both operands slices of one buffer (same start address) = {:?} but parse-then-compare gives {:?}", v.name, a, b, got, want));
+                }
+                if v.name == "Normal" {
+                    let got = api.compare_normal(a, b).unwrap();
+                    if got != want {
+                        return Err(format!("tlsh::compare({:?}, {:?}) with both operands slices of one buffer = {:?} but parse-then-compare gives {:?}", a, b, got, want));
+                    }
+                }
+            }
+        }
+    }
     match &want {
         Ok(d) => {
             st.class("both parse");
